@@ -149,6 +149,13 @@ impl Exec {
         if x64 > self.hull_hi {
             self.hull_hi = x64;
         }
+        if self.t_eff.is_none() && !self.t_unknown {
+            // processed before any set_time: the power-on time constant is not specified, assume the slowest
+            let g = self.gain_for(10.0);
+            if g > self.gain_max {
+                self.gain_max = g;
+            }
+        }
         let tol = self.tol();
         // ---------------- C13: stays inside the hull of 0 and the inputs seen so far
         ctx.check(13, "inside_input_hull", y64 >= self.hull_lo - tol && y64 <= self.hull_hi + tol, || {
@@ -164,7 +171,7 @@ impl Exec {
             }
             // ---------------- C14 landmarks: a step after a settled hold
             self.lm = None;
-            if self.settled && !self.is_fast() && !self.t_unknown {
+            if self.settled && !self.is_fast() && !self.t_unknown && self.t_eff.is_some() {
                 let n = self.n_eff();
                 if n >= 100.0 {
                     let y0 = self.y_last as f64;
@@ -217,7 +224,7 @@ impl Exec {
         // ---------------- C13 bounded settling; C14 fastest response
         let n_eff = self.n_eff();
         let window = (3.0 * n_eff) as u64 + 16;
-        if self.since_change == window && !self.t_unknown {
+        if self.since_change == window && !self.t_unknown && self.t_eff.is_some() {
             ctx.probe(P_SETTLE_WINDOWS);
             let lim = tol + 0.005 * self.settle_start_err;
             ctx.check(13, "settles_on_held_input", err.abs() <= lim, || {
@@ -230,7 +237,7 @@ impl Exec {
         if self.since_change >= window {
             self.settled = err.abs() <= tol + 0.005 * self.settle_start_err + 1e-7 * self.max_abs_x;
         }
-        if self.is_fast() && self.since_change == 8 && !self.t_unknown {
+        if self.is_fast() && self.since_change == 8 && !self.t_unknown && self.t_eff.is_some() {
             ctx.probe(P_FAST_SETTLE_CHECKS);
             let lim = 1e-6 * self.max_abs_x + 1e-30;
             let t = self.t_eff;
